@@ -93,12 +93,15 @@ Definition c_uscore : N := 95.
 (* lib.rs:186-212: next_id, id_to_entry, name_to_id, type_to_id, uses_serde_json
    (ref_to_id is a function of the document: [ref_id]; the other uses_* flags
    and `defaults` stay false/empty on the fragment) *)
+(* uses_serde_json, uses_regress *)
+Record uflags := mkFlags { uf_json : bool; uf_regress : bool }.
+
 Record st := mkSt {
   st_next : N;
   st_ents : list (id * entry);          (* kept sorted by id: BTreeMap *)
   st_names : list (ustring * id);       (* name_to_id; the first binding wins *)
   st_types : list (details * id);       (* type_to_id *)
-  st_json : bool }.
+  st_flags : uflags }.
 
 (* BTreeMap::insert on id_to_entry *)
 Fixpoint put (j : id) (e : entry) (l : list (id * entry)) : list (id * entry) :=
@@ -141,7 +144,7 @@ Definition assign (te : details) (s : st) : id * st :=
           | None =>
               let i := st_next s in
               (i, mkSt (i + 1) (put i (mkEntry te []) (st_ents s)) ((n, i) :: st_names s)
-                       (st_types s) (st_json s))
+                       (st_types s) (st_flags s))
           end
       | None =>
           match find_type te (st_types s) with
@@ -149,13 +152,15 @@ Definition assign (te : details) (s : st) : id * st :=
           | None =>
               let i := st_next s in
               (i, mkSt (i + 1) (put i (mkEntry te []) (st_ents s)) (st_names s)
-                       ((te, i) :: st_types s) (st_json s))
+                       ((te, i) :: st_types s) (st_flags s))
           end
       end
   end.
 
 Definition set_json (s : st) : st :=
-  mkSt (st_next s) (st_ents s) (st_names s) (st_types s) true.
+  mkSt (st_next s) (st_ents s) (st_names s) (st_types s) (mkFlags true (uf_regress (st_flags s))).
+Definition set_regress (s : st) : st :=
+  mkSt (st_next s) (st_ents s) (st_names s) (st_types s) (mkFlags (uf_json (st_flags s)) true).
 
 (* structs.rs:463-484 has_default with `default = None` *)
 Definition has_intrinsic_default (s : st) (t : id) : bool :=
@@ -178,6 +183,7 @@ Definition sort_props (l : list prop) : list prop := fold_right ins_prop [] l.
 (* ------------------------------------------------------------------ dispatch *)
 Inductive kind :=
 | KBool | KStr | KNull | KNum
+| KStrC (mx mn : option N) (pat : option ustring)     (* constrained string newtype *)
 | KInt (rust : ustring)
 | KEnum (raws : list ustring)
 | KStruct (deny : bool)
@@ -240,7 +246,7 @@ Section Classify.
 
   (* keywords no arm of the fragment looks at *)
   Definition no_extras : bool :=
-    is_none cst && numv_is_none nv && strv_is_none sv && is_none ai && is_none mni && is_none mxi
+    is_none cst && is_none ai
     && negb uq && is_none mnp && is_none mxp && is_none allo && is_none anyo && is_none oneo
     && is_none no && is_none dflt && is_none title.
 
@@ -254,31 +260,45 @@ Section Classify.
     | Some _ => None
     end.
 
+  (* numeric / string validation keywords absent (each arm says which it reads) *)
+  Definition no_num : bool := numv_is_none nv.
+  Definition no_str : bool := strv_is_none sv.
+  Definition no_len : bool := is_none mni && is_none mxi.
+  (* minItems / maxItems that do not make a fixed-length array (convert.rs:1771-1778 wants them
+     equal and > 0; equal and 0 is left out too: a Vec does not enforce it) *)
+  Definition len_plain : bool :=
+    match mni, mxi with Some a, Some b => negb (a =? b) | _, _ => true end.
+
   Definition kind_of_type (t : itype) : option kind :=
     match t with
-    | TBoolean => if is_none fmt && is_none enum && no_array && no_object then Some KBool else None
-    | TNull => if is_none fmt && is_none enum && no_array && no_object then Some KNull else None
-    | TNumber => if is_none fmt && is_none enum && no_array && no_object then Some KNum else None
+    | TBoolean => if is_none fmt && is_none enum && no_array && no_object && no_num && no_str && no_len then Some KBool else None
+    | TNull => if is_none fmt && is_none enum && no_array && no_object && no_num && no_str && no_len then Some KNull else None
+    | TNumber => if is_none fmt && is_none enum && no_array && no_object && no_num && no_str && no_len then Some KNum else None
     | TInteger =>
-        if is_none enum && no_array && no_object then
+        if is_none enum && no_array && no_object && no_num && no_str && no_len then
           match fmt with
           | None => Some (KInt s_i64)
           | Some f => option_map KInt (assoc f int_format_type)
           end
         else None
     | TString =>
-        if is_none fmt && no_array && no_object then
+        if is_none fmt && no_array && no_object && no_num && no_len then
           match enum with
-          | None => Some KStr
-          | Some es => match jstrs es with
-                       | Some [] => None
-                       | Some raws => Some (KEnum raws)
-                       | None => None
-                       end
+          | None =>
+              (* convert.rs:796-828: no validation -> String; otherwise a named newtype *)
+              if no_str then Some KStr
+              else Some (KStrC (s_max_length sv) (s_min_length sv) (s_pattern sv))
+          | Some es => if no_str then
+                         match jstrs es with
+                         | Some [] => None
+                         | Some raws => Some (KEnum raws)
+                         | None => None
+                         end
+                       else None
           end
         else None
     | TArray =>
-        if is_none fmt && is_none enum && no_object then
+        if is_none fmt && is_none enum && no_object && no_num && no_str && len_plain then
           match ik, items with
           | ItemsAbsent, [] => Some KVecAny
           | ItemsSingle, [_] => Some KVec
@@ -286,7 +306,7 @@ Section Classify.
           end
         else None
     | TObject =>
-        if is_none fmt && is_none enum && no_array then
+        if is_none fmt && is_none enum && no_array && no_num && no_str && no_len then
           (* convert.rs:1278-1298: no properties, nothing required,
              additionalProperties other than `false` -> a map *)
           if is_nil props && is_nil req
@@ -307,7 +327,7 @@ Section Classify.
         | None => None
         end
     | None =>
-        if is_none fmt && is_none enum && no_array && no_object then
+        if is_none fmt && is_none enum && no_array && no_object && no_num && no_str && no_len then
           match ref with
           | Some r => Some (false, KRef r)
           | None => Some (false, KAny)
@@ -412,6 +432,14 @@ Section Convert.
       | KStr => Some (DString, s)
       | KNull => Some (DUnit, s)
       | KNum => Some (DFloat s_f64, s)
+      | KStrC mx mn pat =>
+          (* convert.rs:806-828: (valid pattern -> uses_regress), assign String, named newtype *)
+          let s' := match pat with Some _ => set_regress s | None => s end in
+          let '(sid, s1) := assign DString s' in
+          match type_name nm with
+          | Some n => Some (DNewtype n None sid (CString mx mn pat), s1)
+          | None => None
+          end
       | KInt r => Some (DInteger r, s)
       | KEnum raws =>
           match type_name nm with
@@ -500,7 +528,7 @@ Section Convert.
         | None => None
         | Some en =>
             Some (mkSt (st_next s2) (put t (mkEntry ent []) (st_ents s2)) ((en, t) :: st_names s2)
-                       (st_types s2) (st_json s2))
+                       (st_types s2) (st_flags s2))
         end
     end.
 
@@ -526,7 +554,7 @@ Definition ref_id (D : defs) (r : ustring) : option id := ref_index D r 1.
 Definition default_settings : settings := mkSettings None [] false s_map_type.
 
 Definition space_of (s : st) : space :=
-  mkSpace (st_ents s) (st_next s) default_settings false false (st_json s) false [].
+  mkSpace (st_ents s) (st_next s) default_settings false false (uf_json (st_flags s)) (uf_regress (st_flags s)) [].
 
 (* lib.rs:638-705 batch_names: Err when two definitions get the same type name *)
 Definition def_names (cls : Heck.CharClasses) (D : defs) : list ustring :=
@@ -534,7 +562,7 @@ Definition def_names (cls : Heck.CharClasses) (D : defs) : list ustring :=
 
 Definition convert_doc (cls : Heck.CharClasses) (D : defs) : option space :=
   if negb (Sanitize.unique (def_names cls D)) then None else
-  match conv_defs cls (ref_id D) D 1 (mkSt (1 + N.of_nat (length D)) [] [] [] false) with
+  match conv_defs cls (ref_id D) D 1 (mkSt (1 + N.of_nat (length D)) [] [] [] (mkFlags false false)) with
   | Some s => Some (space_of s)
   | None => None
   end.
@@ -548,6 +576,20 @@ Fixpoint pairs_from (D : defs) (i : id) : list (ustring * id) :=
 Definition pairs_of (D : defs) : list (ustring * id) := pairs_from D 1.
 
 (* ------------------------------------------------------------------ the fragment *)
+(* a pattern every ECMAScript engine accepts (regress::Regex::new never fails on it): letters,
+   digits, space, '_' and '-' with an optional leading '^' and trailing '$'.  (The model cannot
+   decide regex validity in general; an invalid pattern makes the real converter return Err.) *)
+Definition pat_char_ok (c : N) : bool :=
+  ((97 <=? c) && (c <=? 122)) || ((65 <=? c) && (c <=? 90)) || ((48 <=? c) && (c <=? 57))
+  || (c =? 32) || (c =? 95) || (c =? 45).
+Definition strip_caret (p : ustring) : ustring := match p with 94 :: r => r | _ => p end.
+Definition strip_dollar (p : ustring) : ustring :=
+  match rev p with 36 :: r => rev r | _ => p end.
+Definition pat_safe (p : ustring) : bool := forallb pat_char_ok (strip_dollar (strip_caret p)).
+Definition u32_ok (o : option N) : bool := match o with Some n => n <? 4294967296 | None => true end.
+Definition strc_ok (mx mn : option N) (pat : option ustring) : bool :=
+  u32_ok mx && u32_ok mn && match pat with Some p => pat_safe p | None => true end.
+
 Section Frag.
   Variable cls : Heck.CharClasses.
   Variable keys : list ustring.        (* definition names *)
@@ -556,7 +598,7 @@ Section Frag.
      under the name [nm], the type of [s] itself first *)
   Definition own_names (nm : name) (k : kind) : list ustring :=
     match k with
-    | KEnum _ | KStruct _ => match type_name cls nm with Some n => [n] | None => [] end
+    | KEnum _ | KStruct _ | KStrC _ _ _ => match type_name cls nm with Some n => [n] | None => [] end
     | _ => []
     end.
 
@@ -605,6 +647,7 @@ Section Frag.
             match k with
             | KEnum raws =>
                 match Sanitize.variant_idents cls raws with Sanitize.Ok _ => true | _ => false end
+            | KStrC mx mn pat => strc_ok mx mn pat
             | KStruct _ =>
                 keys_sorted (map fst props)
                 && forallb (fun r => has_key r props) req
@@ -655,10 +698,10 @@ Definition def_all_names (cls : Heck.CharClasses) (kv : ustring * schema) : list
   let n := Sanitize.sanitize cls (fst kv) Sanitize.Pascal in
   match names_of cls (snd kv) (NRequired (fst kv)) with
   | m :: r => if match classify_s (snd kv) with
-                 | Some (false, KEnum _) | Some (false, KStruct _) => true
+                 | Some (false, KEnum _) | Some (false, KStruct _) | Some (false, KStrC _ _ _) => true
                  | _ => false
                  end
-              then m :: r            (* the definition itself is the struct/enum: m = n *)
+              then m :: r            (* the definition itself is the struct/enum/newtype: m = n *)
               else n :: m :: r
   | [] => [n]
   end.
